@@ -108,10 +108,27 @@ def rebuild(model, snap, prefix, stats=None, ids=None):
     selects how ids are assigned (results must not depend on them): None = the fresh uuid4s,
     'same' = every rating carries the same id, 'reversed' = fresh ids re-dealt in descending
     order."""
-    teams = [
-        [mk_rating(model, dec(mu), dec(sg), "%s_%d_%d" % (prefix, i, j), stats) for j, (mu, sg) in enumerate(t)]
-        for i, t in enumerate(snap)
-    ]
+    nm = (ids or "fresh")
+    n_all = sum(len(t) for t in snap)
+
+    def name(i, j, k):
+        # results must not depend on names either: vary them with the id mode
+        if nm == "same":
+            return "x"
+        if nm == "reversed":
+            return "%s_%04d" % (prefix, n_all - k)
+        if nm == "sorted":
+            return None
+        return "%s_%d_%d" % (prefix, i, j)
+
+    teams = []
+    k = 0
+    for i, t in enumerate(snap):
+        row = []
+        for j, (mu, sg) in enumerate(t):
+            row.append(mk_rating(model, dec(mu), dec(sg), name(i, j, k), stats))
+            k += 1
+        teams.append(row)
     if ids == "same":
         for t in teams:
             for p in t:
